@@ -20,4 +20,6 @@ def run(ctx):
         "library feature handling (C08)",
     ]
     run_kernels(ctx, ["K2", "K1", "K3", "K7", "K8", "K9", "K10"], "C02")
-    k19_match(ctx, "C02")
+    ctx.guard(k19_match, ctx, "C02")
+    from ..rules_misc import k21_match_overrides
+    ctx.guard(k21_match_overrides, ctx, "C02")
